@@ -20,6 +20,19 @@ import (
 )
 
 func (h *harness) check() {
+	// Calls generated as "the bus has to refuse this" (see badSpec). That they returned at all
+	// is checked with every other call (quiesce). An accepted one would be a subscription /
+	// emitter for something that is not an event type, about which the property says nothing
+	// and which this harness could not interpret: it is reported instead of being guessed at.
+	// Everything else about a refused call follows from the rules below, which know nothing
+	// of it: it has created no subscriber, so it can never be the reason why an Emit waits,
+	// and every real subscriber goes on receiving every event exactly once and in order.
+	for _, r := range h.bads {
+		if r.end != 0 && r.err == nil {
+			h.fail("the bus accepted a call it has to refuse (%v; object returned: %v): the history cannot be interpreted from here on", r.spec, r.gotObject)
+			return
+		}
+	}
 	for _, s := range h.subs {
 		if s.subRet == 0 {
 			continue
@@ -318,7 +331,7 @@ func (h *harness) checkSub(s *subState) {
 
 // summary computes the coverage facts of the executed case.
 func (h *harness) summary() *result {
-	res := &result{excluded: h.excluded, failure: h.failure, emits: len(h.all), trace: strings.Join(h.trace, " | ")}
+	res := &result{excluded: h.excluded, failure: h.failure, stuck: h.stuck, emits: len(h.all), trace: strings.Join(h.trace, " | ")}
 	overlap := func(x *emitRec, from, to int64) bool {
 		if x.begin == 0 || from == 0 {
 			return false
@@ -361,6 +374,64 @@ func (h *harness) summary() *result {
 		for _, r := range s.reads {
 			if rec := h.recs[keyOf(r.v)]; rec != nil && rec.end != 0 && rec.end < s.subBegin {
 				h.label("retained-event-delivered")
+			}
+		}
+	}
+	// Refused calls: which classes were made, what raced with them and - the part that makes
+	// a left-over observable - how much traffic the types they named saw afterwards.
+	for _, r := range h.bads {
+		if r.end == 0 {
+			continue
+		}
+		b := r.spec
+		h.label("refused:" + b.class())
+		for _, x := range h.all {
+			if overlap(x, r.begin, r.end) {
+				h.label("refused-call-overlaps-emit")
+				break
+			}
+		}
+		if b.Call != "sub" {
+			continue
+		}
+		named := b.Types
+		if b.Why != "opt" {
+			named = b.Types[:min(max(b.Pos, 0), len(b.Types))] // the well-formed elements before the offending one
+		}
+		for _, t := range named {
+			after := 0
+			retained := false
+			for _, x := range h.all {
+				if x.typ != t || !x.ok() {
+					continue
+				}
+				if x.begin > r.end {
+					after++
+				}
+				if x.end < r.begin {
+					retained = true
+				}
+			}
+			if after > 0 {
+				h.label("refused-sub:named-type-emitted-afterwards")
+			}
+			if after > b.capacity() {
+				h.label("refused-sub:named-type-emitted-beyond-its-buffer")
+				if b.Why != "opt" {
+					res.nontrivial = true
+					h.label("refused-sub:type-before-offending-element-emitted-beyond-its-buffer")
+				}
+			}
+			if h.sc.Stateful[t] && retained && after > 0 {
+				h.label("refused-sub:named-stateful-type-with-retained-event-emitted-afterwards")
+			}
+		}
+	}
+	for _, e := range h.ems {
+		if e.closedTwice && e.closeRet != 0 {
+			h.label("emitter-close-twice")
+			if (e.closeErr[0] == nil) != (e.closeErr[1] == nil) {
+				h.label("emitter-close-twice:one-refused")
 			}
 		}
 	}
